@@ -173,7 +173,7 @@ def worker(ck: Check, job):
             inner_pos = range(1, k - 1)
             return z3.Not(z3.Or(*[st.w[i] == j for i in inner_pos for j in idx])) if idx and k > 2 else None
         return None
-    split = [z3.And(st.w[0] == j, st.w[1] == j2) for j in range(len(reps)) for j2 in range(len(reps))]
+    split = [[st.w[i] == j for j in range(len(reps))] for i in range(k)]
     ck.prove_none(name, st.assm, guard(cov, bad), on_cex, block, case_split=split)
     if not hide_nothing:
         ck.cover(name + ':held-and-dropped', st.assm + [z3.UGT(n0, nt)], lambda m: {'lang': code, 'tokens': [t[0] for t in st.concrete(m)]})
@@ -225,7 +225,11 @@ def run(ck: Check):
     if only:
         langs = [c for c in langs if c in only.split(',')]
     ths = THRESHOLDS_QUICK if ck.tier == 'quick' else THRESHOLDS_THOROUGH
-    jobs = [(c, t) for c in langs for t in ths]
+    if ck.tier == 'quick':
+        # the threshold comparison is language independent: every language at 10, the other representatives on English only
+        jobs = [(c, 10.0) for c in langs] + [('en', t) for t in ths if t != 10.0 and 'en' in langs]
+    else:
+        jobs = [(c, t) for c in langs for t in ths]
     run_parallel(ck, worker, jobs)
     ck.bounds['thresholds'] = [repr(t) for t in ths]
     ck.outside += ['streams of more than %d word tokens' % (3 if ck.tier == 'quick' else 4), 'thresholds other than the listed concrete ones',
